@@ -36,6 +36,8 @@ HISTORIES = {
     "unclosed_comment": ("m.c", "int\tmain(void)\n{\n\treturn (0);\n}\n/* open"),
     "defines_guard_names": ("n.c", "#define Q_H 1\n#define NO_H 1\n#define A 1\n"),
     "comment_in_args": ("o.h", "#ifndef O_H\n# define O_H\n\nint\tfoo(int /* n */ a);\n\n#endif\n"),
+    "if_with_function_like_macro": ("p.c", "#if VERSION_AT_LEAST(2, 7)\n# define B 1\n#elif OTHER(1)\n# define B 2\n#endif\n"),
+    "lexer_notices": ("q.c", "int\tmain(void)\n{\n\tchar\tc;\n\n\tc = '\\q';\n\treturn (c);\n}\n"),
     "globals_protos": ("h.c", "static int\tg_a = 1;\nstatic char\t*g_b;\n\nint\t\tfoo(int a);\nint\t\tbar(void);\n"),
 }
 PROBES = {
@@ -52,6 +54,7 @@ PROBES = {
     "guard_without_define": ("no.h", "#ifndef NO_H\n\nint\tfoo(void);\n\n#endif\n"),
     "ifdef_of_other_files_macro": ("x.c", "#ifdef A\n# define B 2\n#else\n# define B 3\n#endif\n\nint\tmain(void)\n{\n\treturn (B);\n}\n"),
     "comment_between_type_and_name": ("y.c", "int\tfn(int /* n */ a, char * /* s */ b)\n{\n\treturn (a + b[0]);\n}\n"),
+    "nested_parentheses_90": ("z.c", "int\tfn(int a)\n{\n\treturn (" + "(" * 90 + "a" + ")" * 90 + ");\n}\n"),
     "six_funcs": ("u.c", "\n".join("int\tf%d(void)\n{\n\treturn (%d);\n}\n" % (i, i) for i in range(6))),
 }
 
